@@ -18,6 +18,7 @@ RULE = (
     "run-time select - must equal the snapshot of a twin built from scratch by replaying that recipe alone. An "
     "operation must also return a new object. Non-trivial: >= 3 derivations and >= 2 objects compared; distinct = "
     "canonical operation sequence."
+    ' Independent of the twin: every derived function-backed node (gates with defaulted inputs included in 60% of the programs) must report per input exactly what the function signature says about the parameter behind it.'
 )
 ASSUMPTIONS = [
     "a twin replayed in isolation is the definition of 'unchanged': it never experienced the other operations",
